@@ -195,5 +195,23 @@ def unit_late_classes():
             return None if log == want else {"expected": "every check asked for its verdict once and cleaned up once: %r" % want, "observed": log}
         r4 = sweep("C20/protocol/an explicit close() that fails inside a with block does not ask the checks a second time", ["reader", "writer"], close_once_check, "bounded", "Reader and Writer, two recording checks, the second failing at the end",
                    describe=lambda k: {"validator": k}, function="validio.BaseValidator.close / __exit__", unit="C20.late-classes")
-        return [r3, r4]
+        # a check whose reset() fails when an unused validator is closed: every check is cleaned up all the same
+        def reset_fails_check(kind):
+            import io
+            from cutplace import interface, validio, checks, errors
+            log = []
+            cls = type("ResetFails%sCheck" % kind.title(), (checks.AbstractCheck,), {
+                "reset": lambda self: (log.append(("reset", self.description)), (_ for _ in ()).throw(errors.CheckError("cannot reset")) if (self.description == "fails" and getattr(self, "armed", False)) else None)[-1],
+                "cleanup": lambda self: log.append(("cleanup", self.description))})
+            cid = interface.Cid(); cid.read("c", [["d", "format", "delimited"], ["f", "a"], ["c", "passes", "ResetFails%s" % kind.title(), "a"], ["c", "fails", "ResetFails%s" % kind.title(), "a"], ["c", "last", "ResetFails%s" % kind.title(), "a"]])
+            for c in cid.check_map.values(): c.armed = True
+            del log[:]
+            v = validio.Reader(cid, io.StringIO("1\n")) if kind == "reader" else validio.Writer(cid, io.StringIO())
+            try: v.close()
+            except errors.CutplaceError: pass
+            cleaned = [d for k, d in log if k == "cleanup"]
+            return None if cleaned == ["passes", "fails", "last"] else {"expected": "every check cleaned up once: ['passes', 'fails', 'last']", "observed": log}
+        r5 = sweep("C20/protocol/closing an unused validator cleans every check up also when a reset fails", ["reader", "writer"], reset_fails_check, "bounded", "Reader and Writer closed unused, three recording checks, the second failing in reset()",
+                   describe=lambda k: {"validator": k}, function="validio.BaseValidator.close", unit="C20.late-classes")
+        return [r3, r4, r5]
     return NativeUnit("C20.late-classes", "bounded: user classes resolve by class name whenever they are defined (before / after other Cids, after a plug-in import)", ["C20", "C09", "C17"], run, kind="bounded")
